@@ -603,7 +603,7 @@ func applyEdit(r *rng, p *Project, c *committed, abs string) string {
 			must(os.Chtimes(fp, old, old))
 		}
 	}
-	kind := []string{"flip", "truncate", "append", "add-file", "add-dir", "delete", "rename", "retarget", "dangle", "file-to-dir", "dir-to-file", "link-to-copy", "none", "edit-below-norec", "append-nul", "truncate-nul", "drop-object", "drop-object", "retarget", "retarget"}[r.intn(20)]
+	kind := []string{"flip", "truncate", "append", "add-file", "add-dir", "delete", "rename", "retarget", "dangle", "file-to-dir", "dir-to-file", "link-to-copy", "none", "edit-below-norec", "append-nul", "truncate-nul", "drop-object", "drop-object", "retarget", "retarget", "file-to-dir", "dir-to-file", "dir-to-file"}[r.intn(23)]
 	switch kind {
 	case "flip", "truncate", "append", "delete", "rename", "retarget", "dangle", "file-to-dir", "link-to-copy", "append-nul", "truncate-nul", "drop-object":
 		if len(files) == 0 {
